@@ -67,9 +67,9 @@ package regulator
 //@   ensures len(r.waitingQueue) == old(len(r.waitingQueue)) - len(res)
 //@   ensures [C09] forall k :: 0 <= k && k < len(res) ==> res[k] == old(r.waitingQueue[k])
 //@   ensures [C09] forall k :: 0 <= k && k < len(r.waitingQueue) ==> r.waitingQueue[k] == old(r.waitingQueue[len(res) + k])
-//@   loop 1 invariant 0 <= i && (i <= count || i == 0) && len(players) == i && len(r.waitingQueue) == old(len(r.waitingQueue)) - i
-//@   loop 1 invariant forall k :: 0 <= k && k < i ==> players[k] == old(r.waitingQueue[k])
-//@   loop 1 invariant forall k :: 0 <= k && k < len(r.waitingQueue) ==> r.waitingQueue[k] == old(r.waitingQueue[i + k])
+//@   loop 1 invariant 0 <= loopvar && (loopvar <= count || loopvar == 0) && len(players) == loopvar && len(r.waitingQueue) == old(len(r.waitingQueue)) - loopvar
+//@   loop 1 invariant forall k :: 0 <= k && k < loopvar ==> players[k] == old(r.waitingQueue[k])
+//@   loop 1 invariant forall k :: 0 <= k && k < len(r.waitingQueue) ==> r.waitingQueue[k] == old(r.waitingQueue[loopvar + k])
 
 //@ func (*regulator).requestPlayers(r, count) (res)
 //@   props C19 C09
@@ -80,9 +80,9 @@ package regulator
 //@   ensures len(r.waitingQueue) == old(len(r.waitingQueue)) - len(res)
 //@   ensures [C09] forall k :: 0 <= k && k < len(res) ==> res[k] == old(r.waitingQueue[k])
 //@   ensures [C09] forall k :: 0 <= k && k < len(r.waitingQueue) ==> r.waitingQueue[k] == old(r.waitingQueue[len(res) + k])
-//@   loop 1 invariant 0 <= i && (i <= count || i == 0) && len(players) == i && len(r.waitingQueue) == old(len(r.waitingQueue)) - i
-//@   loop 1 invariant forall k :: 0 <= k && k < i ==> players[k] == old(r.waitingQueue[k])
-//@   loop 1 invariant forall k :: 0 <= k && k < len(r.waitingQueue) ==> r.waitingQueue[k] == old(r.waitingQueue[i + k])
+//@   loop 1 invariant 0 <= loopvar && (loopvar <= count || loopvar == 0) && len(players) == loopvar && len(r.waitingQueue) == old(len(r.waitingQueue)) - loopvar
+//@   loop 1 invariant forall k :: 0 <= k && k < loopvar ==> players[k] == old(r.waitingQueue[k])
+//@   loop 1 invariant forall k :: 0 <= k && k < len(r.waitingQueue) ==> r.waitingQueue[k] == old(r.waitingQueue[loopvar + k])
 
 // ---------------------------------------------------------------------------
 // topping tables up
@@ -321,6 +321,6 @@ package regulator
 //@   ensures [C09 C20] forall s *Table :: allocated(s) && s != old(r.tables[tableID]) ==> s.PlayerCount == old(s.PlayerCount)
 //@   ensures [C09] forall k :: 0 <= k && k < len(newPlayers) ==> newPlayers[k] == old(r.waitingQueue[k])
 //@   ensures [C09] len(r.waitingQueue) == old(len(r.waitingQueue)) - len(newPlayers)
-//@   loop 1 invariant 0 <= i && i <= count && picked == i
+//@   loop 1 invariant 0 <= loopvar && loopvar <= count && picked == loopvar
 //@   loop 1 invariant t.PlayerCount == old(r.tables[tableID].PlayerCount) - out - picked
 //@   loop 1 invariant forall s *Table :: s != t ==> s.PlayerCount == old(s.PlayerCount)
